@@ -23,7 +23,9 @@ CANDS = [('UNARY', '-'), ('UNARY', '!'), ('UNARY', '+'), ('UNARY', '++'), ('POST
          ('REFERENCE', 'a'), ('REFERENCE', 'b'), ('LIST', None), ('MAP', None), ('CHAIN', None)]
 TEXTS = ['- a', '! a', '+ a', '++ a', '++ a ++', 'f', 'a ( f )', 'a + b', 'a * b', 'a - b', 'a ++', 'a --', 'a ? b : c', 'f ( a )', 'g ( a , b )', 'f ( )', 'a', 'b', 'c',
          '[ a , b ]', '[ ]', '{ a : b }', 'a ; b', '1.50', '"s"', 'true',
-         '- a + f ( [ b ] ) * { a : b ++ } ; a ? b : c', 'a - - b', 'f ( g ( a ) , - a ) ++']
+         '- a + f ( [ b ] ) * { a : b ++ } ; a ? b : c', 'a - - b', 'f ( g ( a ) , - a ) ++',
+         # deep trees (the property has no depth bound): a 70-term sum (left-deep), 70 nested lists / calls, 70 prefix operators
+         ' + '.join(['a'] * 70), '[ ' * 70 + 'a' + ' ]' * 70, 'f ( ' * 70 + 'a' + ' )' * 70, '- ' * 70 + 'a']
 SETTERS = {'UNARY': 'set_unary_descriptor', 'BINARY': 'set_binary_descriptor', 'POSTFIX': 'set_postfix_descriptor',
            'TERNARY': 'set_ternary_descriptor', 'FUNCTION': 'set_function_descriptor', 'REFERENCE': 'set_reference_descriptor',
            'LIST': 'set_list_descriptor', 'MAP': 'set_map_descriptor', 'CHAIN': 'set_chain_descriptor'}
